@@ -197,6 +197,7 @@ Definition prop_storemap (input obs : val) : val :=
    input  = (target v1given opts roots ops pre) target: 0 path | 1 stream; roots: (cid ...) or tnil;
             pre: tnone | b<bytes> = the file at the output path before the writer is used (path target)
             faults (optional 7th field): the fault script of the output target, as in kind "store"
+            kids (optional 8th field): ((id ((id once) ...)) ...) = the callbacks the callback id registers when it fires
             ops: (tonput id once) (thas key) (tput key data) (tclose)
                  (topen h) (twrite h data) (tcommit h key) -- the BlockWriteOpener path on writer h
    output = ((res log bytes exists directbytes) ...)  per step:
@@ -208,7 +209,8 @@ Definition v_dcfg (input : val) : dcfg :=
   mkdcfg (if vN (vnth 0 input) =? 0 then TPath else TStream) (v_wopts (vnth 2 input)) (vbool (vnth 1 input))
          (is_nil_tag (vnth 3 input)) (vcids (vnth 3 input))
          (match vnth 5 input with VB b => Some b | _ => None end)
-         (v_faults (vnth 6 input)).
+         (v_faults (vnth 6 input))
+         (map (fun e => (vN (vnth 0 e), map (fun x => (vN (vnth 0 x), vbool (vnth 1 x))) (vL (vnth 1 e)))) (vL (vnth 7 input))).
 
 Definition v_dop (op : val) : option dop :=
   if tag_is op "onput" then Some (DOnPut (vN (vnth 1 op)) (vbool (vnth 2 op)))
@@ -286,7 +288,7 @@ Fixpoint check_dsteps (c : dcfg) (cls : string) (acc : list (N * bool) * bool) (
     let bad_log :=
       match op with
       | DPut _ d =>
-          let want := if closed then [] else map (fun cb => (fst cb, blen d)) (fst acc) in
+          let want := if closed then [] else map (fun cb => (fst cb, blen d)) (fired_re (dc_kids c) (fst acc)) in
           negb (val_eqb (v_log want) (vnth 1 ob))
       | _ => negb (val_eqb (VL []) (vnth 1 ob))
       end in
@@ -297,7 +299,7 @@ Fixpoint check_dsteps (c : dcfg) (cls : string) (acc : list (N * bool) * bool) (
             && negb (val_eqb res (VL [VT "err"; VT "closed"])) then fail "not-closed-after-close" cls
     else if closed && negb (bytes_eqb bytes prev) then fail "output-changed-after-close" cls
     else if started' && negb (bytes_eqb bytes (vB (vnth 4 ob))) then fail "differs-from-direct-writer" cls
-    else check_dsteps c cls (live_step acc op) started' bytes bufs' ops' obs'
+    else check_dsteps c cls (live_step_re (dc_kids c) acc op) started' bytes bufs' ops' obs'
     end
   | _, _ => VT "ok"
   end.
